@@ -39,6 +39,16 @@ import (
 )
 
 func c11macOf(a uint32, gen byte) net.HardwareAddr {
+	// every MAC a sender can put into an ARP frame is a MAC the scan prints and the loader must map: the
+	// all-zero and the broadcast address included (one host in 16 each)
+	switch (a ^ uint32(gen)) % 16 {
+	case 3:
+		return net.HardwareAddr{0, 0, 0, 0, 0, 0}
+	case 7:
+		return net.HardwareAddr{0xff, 0xff, 0xff, 0xff, 0xff, 0xff}
+	case 11:
+		return net.HardwareAddr{0x01, 0x00, 0x5e, byte(a >> 16), byte(a >> 8), byte(a)} // a multicast address
+	}
 	return net.HardwareAddr{0x02, gen, byte(a >> 24), byte(a >> 16), byte(a >> 8), byte(a)}
 }
 
